@@ -806,7 +806,7 @@ func c09WholeRun(ctx *Ctx, res *Result, root, path, old string) {
 // ---- entry points ----
 
 func runC09(ctx *Ctx) *Result {
-	res := &Result{Rule: "cases = (byte string, mode); exhaustive: every string of length <= L over {backslash, LF, CR, space, tab, #, a} in makefile and plain mode, every string of length <= L2 over {backslash, LF, space, FF, VT, CR, 0xC2, 0xA0, 0x85, a} in both modes, then every string of <= 4 tokens over {BOM, U+00FC, NUL, FF, backslash, LF, a} loaded through Load(file, options), then seeded random strings (all through Load) up to 200 bytes (property alphabet / line-structured makefile text / arbitrary bytes incl. NUL and non-ASCII), with and without final newline; non-trivial = makefile mode: some logical line has >= 2 physical lines, or ends in an even backslash run, or a continuation meets EOF; plain mode: >= 2 lines or no final newline; distinct by (string, mode). Save scripts: random text <= 80 bytes with 0-3 Autofix operations on random lines. Whole runs: pkglint -F (real binary) on the fixture package with a generated Makefile; physical lines of logical lines not named in the AUTOFIX log must be reproduced in order, a run without AUTOFIX must leave the file alone. Named twice: pkglint -F with a *.mk fragment of the package given next to its package (or twice) against one fresh process per argument: same files afterwards, also after a second round."}
+	res := &Result{Rule: "cases = (byte string, mode); exhaustive: every string of length <= L over {backslash, LF, CR, space, tab, #, a} in makefile and plain mode, every string of length <= L2 over {backslash, LF, space, FF, VT, CR, 0xC2, 0xA0, 0x85, a} in both modes, then every string of <= 4 tokens over {BOM, U+00FC, NUL, FF, backslash, LF, a} loaded through Load(file, options), then seeded random strings (all through Load) up to 200 bytes (property alphabet / line-structured makefile text / arbitrary bytes incl. NUL and non-ASCII), with and without final newline; non-trivial = makefile mode: some logical line has >= 2 physical lines, or ends in an even backslash run, or a continuation meets EOF; plain mode: >= 2 lines or no final newline; distinct by (string, mode). Save scripts: random text <= 80 bytes with 0-3 Autofix operations on random lines. Whole runs: pkglint -F (real binary) on the fixture package with a generated Makefile; physical lines of logical lines not named in the AUTOFIX log must be reproduced in order, a run without AUTOFIX must leave the file alone. Named twice: pkglint -F with a *.mk fragment of the package given next to its package (or twice) against one fresh process per argument: same files afterwards, also after a second round. Reload (round 5): one *.mk file loaded twice in one run through the real file cache, 8 fixed contents x every ordered pair of the 16 LoadOptions sets (first load through Load and through LoadMk), generated contents with continuation lines x (Makefile-mode set, plain set) in both orders: the second load is judged by the specification for the mode it asks for."}
 	rng := NewRng(ctx.Seed)
 	maxLen, nrand, nsave, nwhole := 7, 30000, 5000, 80
 	if ctx.Tier == "thorough" {
@@ -886,6 +886,15 @@ func runC09(ctx *Ctx) *Result {
 		return res
 	}
 	c09NamedTwiceRuns(ctx, res, rng, nwhole/6+1)
+	if res.Broken != "" {
+		return res
+	}
+	// round 5: the same *.mk file loaded twice under different LoadOptions, through the real cache
+	nreload := 150
+	if ctx.Tier == "thorough" {
+		nreload = 5000
+	}
+	c09ReloadRuns(ctx, res, NewRng(ctx.Seed^0xc09c20), nreload)
 	res.Exhaustive = false
 	res.Count("exhaustive_max_len", maxLen)
 
@@ -898,6 +907,8 @@ func runC09(ctx *Ctx) *Result {
 		"save.nothing_modified": 50, "save.partial": 200, "save.all_lines_modified": 20,
 		"w.noop_runs": 3, "w.partial_runs": 20, "w.untouched_multi_raw_lines": 20,
 		"mk.other_space_before_continuation": 1000, "mk.other_space_starts_continuation_line": 1000,
+		"reload.plain-after-makefile_on_continuation_file": 2000, "reload.makefile-after-plain_on_continuation_file": 1500,
+		"reload.cache_hits": 300, "reload.miss_other_options": 3000,
 		"w2.combined_runs": 10, "w2.runs_with_text_and_raw_detected_fixes": 3, "w2.second_check_saw_fixed_file": 5,
 	}
 	for _, k := range sortedKeys(floors) {
@@ -934,6 +945,12 @@ func replayC09(ctx *Ctx, rep map[string]any) *Result {
 			return res
 		}
 		c09WholeRun(ctx, res, root, filepath.Join(root, "cat/pkg/Makefile"), unhx(mf))
+	case "reload":
+		first, _ := rep["first"].(float64)
+		second, _ := rep["second"].(float64)
+		via, _ := rep["via_loadmk"].(bool)
+		c09SetLoadPath(ctx)
+		c09ReloadRun(ctx, res, []c09ReloadCase{{unhx(input), int(first), int(second), via}})
 	case "namedtwice":
 		mod, _ := rep["module"].(string)
 		args, _ := rep["args"].(string)
